@@ -22,7 +22,7 @@ var c03Ops = []string{
 	"sort", "sort_by(.a)", "reverse", "unique", ".[1:]", ".[:-1]", "map(.)", "map(select(. != 1))", "filter(. != 1)", "[.[]]",
 	". + [9]", "[9] + .", "flatten", "group_by(.a)", "to_entries", "with_entries(.)", `pick(["a"])`, "pick([1, 0])", `omit(["a"])`, "omit([0])",
 	".a", ".[0]", "(.a = (.a | sort))", "(.a |= reverse)", "(.b = .a)", "del(.[0])", "del(.a)", ". * {\"c\": [2, 1]}", "unique_by(.a)", "[.[] | select(. != 1)]",
-	". - [1]", ".a - [0]", "(.a | keys)", "(.b = (.a | reverse))", "(.c = (.a | sort))", "(.b = (.a | .[1:]))", "(.c = [.a[]])", "(.b = (.a | map(.)))", "(.[0] = (.[1] | reverse))",
+	". - [1]", ".a - [0]", "(.a | keys)", "(.a + .b)", "map(.a)", "(.b = (.a | reverse))", "(.c = (.a | sort))", "(.b = (.a | .[1:]))", "(.c = [.a[]])", "(.b = (.a | map(.)))", "(.[0] = (.[1] | reverse))",
 }
 
 func c03Selections() []*refsem.E {
@@ -39,6 +39,8 @@ func c03Selections() []*refsem.E {
 		sel(refsem.Leaf("splat"), refsem.Bin("eq", refsem.Key("a"), one)),
 		refsem.Bin("pipe", refsem.Key("a"), refsem.Idx(0)), refsem.Bin("pipe", refsem.Idx(0), refsem.Key("a")),
 		refsem.Bin("pipe", refsem.Idx(1), refsem.Idx(0)), refsem.Bin("union", refsem.Idx(10), refsem.Idx(2)),
+		// entries of several elements at once (in a list put together from several sources their recorded paths can coincide)
+		refsem.Bin("pipe", refsem.Leaf("splat"), refsem.Key("a")), refsem.Bin("union", refsem.Bin("pipe", refsem.Key("a"), refsem.Key("b")), &refsem.E{Op: "qkey", S: "a.b"}),
 		// a value computed from a node is not a node of the document: nothing is selected
 		refsem.Bin("pipe", refsem.Key("a"), refsem.Leaf("length")), refsem.Bin("pipe", refsem.Idx(0), refsem.Leaf("length")),
 	}
@@ -57,6 +59,7 @@ func c03Docs(tier string) []*val.V {
 		`{"a": {"ab": 1, "a": 0}, "ab": [1]}`, `[1, [2, [3]], 1]`, `{"a": [{"a": 1}, {"a": 0}], "ab": 2}`, `[1, 0, 1, 0]`,
 		// keys that are patterns for the traversal's matcher: a deleted entry is located by what it is, not by matching its key text
 		`{"a*": 1, "ab": 0, "a": 0}`, `{"ab": 0, "a?": 1, "a": 1}`, `{"*": 0, "a": 1, "b": 0}`,
+		`{"a": [{"a": 1, "b": 0}], "b": [{"a": 0}, {"a": 1, "b": 1}]}`, `[{"a": {"a": 1}}, {"a": {"a": 0, "b": 1}}]`, `{"a": {"b": 1}, "a.b": 0, "b": 1}`,
 		`[0, 1, 2, 3, 4, 5, 6, 7, 8, 9, 10, 11]`, `{"a": [0, 1, 2, 3, 4, 5, 6, 7, 8, 9, 10, 11], "b": [1, 0]}`,
 	} {
 		docs = append(docs, fromJSONText(h))
